@@ -1,4 +1,6 @@
 import NavisModel.Proofs.VoxelLemmas
+import NavisModel.Proofs.DotpropsLemmas
+import NavisModel.Gen.Conv
 /-!
 # C19 — conversions between representations are geometrically faithful
 
@@ -250,5 +252,552 @@ theorem collinear_principal_axis (d : P3) (ts : List Rat) :
 
 example : inertiaApply ([-2, -1, 0, 1, 2].map fun t => scale t ⟨1, 2, 2⟩) ⟨1, 2, 2⟩ = scale 90 ⟨1, 2, 2⟩ := by
   decide +kernel
+
+/-! # Second pass
+
+## 5. voxelisation: unit strings, default bounds, shape, reported offset / units, per-voxel point sets -/
+
+/-- **voxel_size_physical.** A pitch given as a unit string (`'q unit'`, `unit = factor ·` base unit) on an isometric neuron whose
+own unit is `umag ·` base unit is mapped to `q·factor/umag` neuron units, and the voxel size the `VoxelNeuron` reports
+(`units = pitch · umag`) is exactly the requested physical length `q · factor`. -/
+theorem voxel_size_physical (q factor umag : Rat) (hu : umag ≠ 0) :
+    units1 (mapUnits q factor umag) umag = q * factor :=
+  mapUnits_size q factor umag hu
+
+example : mapUnits 1 1000 8 = 125 ∧ units1 (mapUnits 1 1000 8) 8 = 1000 := by decide +kernel
+
+/-- **shape_positive.** Non-empty bounds give a non-empty grid on every axis. -/
+theorem shape_positive (g : Grid) (hg : PosGrid g) (hx : g.lo.x ≤ g.hi.x) (hy : g.lo.y ≤ g.hi.y) (hz : g.lo.z ≤ g.hi.z) :
+    1 ≤ (shape g).x ∧ 1 ≤ (shape g).y ∧ 1 ≤ (shape g).z :=
+  ⟨shape1_pos _ _ _ hg.1.1 hx, shape1_pos _ _ _ hg.1.2.1 hy, shape1_pos _ _ _ hg.1.2.2 hz⟩
+
+/-- **same_voxel_within_pitch.** Two points that end up in the same voxel are at most one pitch apart on every axis (the grid
+does not merge distant points). -/
+theorem same_voxel_within_pitch (g : Grid) (hg : PosGrid g) (p q : P3) (h : voxIdx g p = voxIdx g q) :
+    (p.x - q.x ≤ g.pitch.x ∧ q.x - p.x ≤ g.pitch.x) ∧ (p.y - q.y ≤ g.pitch.y ∧ q.y - p.y ≤ g.pitch.y) ∧
+    (p.z - q.z ≤ g.pitch.z ∧ q.z - p.z ≤ g.pitch.z) := by
+  have hx : idx1 g.pitch.x g.lo.x p.x = idx1 g.pitch.x g.lo.x q.x := congrArg V3.x h
+  have hy : idx1 g.pitch.y g.lo.y p.y = idx1 g.pitch.y g.lo.y q.y := congrArg V3.y h
+  have hz : idx1 g.pitch.z g.lo.z p.z = idx1 g.pitch.z g.lo.z q.z := congrArg V3.z h
+  unfold idx1 at hx hy hz
+  exact ⟨same_ix_close _ _ _ hg.1.1 (by omega), same_ix_close _ _ _ hg.1.2.1 (by omega), same_ix_close _ _ _ hg.1.2.2 (by omega)⟩
+
+/-- **default_bounds_keep_everything.** With bounds that contain every point — the default `x.bbox`, which is the bounding box
+of the points possibly enlarged by connectors — nothing is clipped: the filled voxels are all distinct voxels of the points,
+`counts=True` adds up to the number of points, and the `vectors`/`alphas` loop visits every voxel. -/
+theorem default_bounds_keep_everything (g : Grid) (hg : PosGrid g) (pts : List P3) (h : boxContains g pts = true) :
+    filled g pts = dedup (allIdx g pts) ∧ gridSum (counts g pts) = pts.length ∧ vectorCells g pts = dedup (allIdx g pts) := by
+  have hall : ∀ p ∈ pts, inBounds g p = true := List.all_eq_true.mp h
+  have hin : ∀ p ∈ pts, inGrid g (voxIdx g p) = true := fun p hp => inGrid_of_inBounds g hg p (hall p hp)
+  exact ⟨filled_of_all_inside g pts hin, (counts_conserved_in_bounds g hg pts).2 hall, filled_of_all_inside g pts hin⟩
+
+/-- The checkers evaluated on the offset / units the `VoxelNeuron` *reports* mean what they say, and with the model's own offset /
+units they coincide with `coversB` (so `voxel_covers` transfers). -/
+theorem reported_checkers_sound (g : Grid) (off un : P3) (pts : List P3) (F : List I3) :
+    (coversAtB g off un pts F = true ↔ ∀ p ∈ pts, inBounds g p = true → ∃ v ∈ F, nearAtB off un g.u p v = true) ∧
+    (sourcedAtB g off un pts F = true ↔ ∀ v ∈ F, ∃ p ∈ pts, nearAtB off un g.u p v = true) ∧
+    coversAtB g (gridOffset g) (gridUnits g) pts F = coversB g pts F := by
+  refine ⟨?_, ?_, ?_⟩
+  · unfold coversAtB
+    rw [List.all_eq_true]
+    constructor
+    · intro h p hp hb
+      have := h p hp
+      rw [hb] at this
+      simpa using this
+    · intro h p hp
+      by_cases hb : inBounds g p = true
+      · obtain ⟨v, hv, hn⟩ := h p hp hb
+        have : (F.any fun v => nearAtB off un g.u p v) = true := List.any_eq_true.mpr ⟨v, hv, hn⟩
+        simp [this]
+      · simp [hb]
+  · unfold sourcedAtB
+    rw [List.all_eq_true]
+    constructor
+    · intro h v hv; exact List.any_eq_true.mp (h v hv)
+    · intro h v hv; exact List.any_eq_true.mpr (h v hv)
+  · unfold coversAtB coversB
+    simp only [nearAtB_model]
+
+theorem model_passes_reported_checkers (g : Grid) (hg : PosGrid g) (pts : List P3) :
+    coversAtB g (gridOffset g) (gridUnits g) pts (filled g pts) = true ∧
+    sourcedAtB g (gridOffset g) (gridUnits g) pts (filled g pts) = true := by
+  refine ⟨by rw [(reported_checkers_sound g (gridOffset g) (gridUnits g) pts (filled g pts)).2.2]; exact covers_filled g hg pts, ?_⟩
+  rw [(reported_checkers_sound g (gridOffset g) (gridUnits g) pts (filled g pts)).2.1]
+  intro v hv
+  obtain ⟨⟨p, hp, rfl⟩, _⟩ := (mem_filled g pts v).mp hv
+  exact ⟨p, hp, by rw [nearAtB_model]; exact near_own g hg p⟩
+
+/-- **points_in_voxel.** The point set the `vectors`/`alphas` loop hands to the SVD for voxel `v` is exactly the points whose
+index is `v`, in input order; its size is the `counts=True` value of that voxel. -/
+theorem points_in_voxel (g : Grid) (pts : List P3) (v : I3) :
+    (∀ p, p ∈ pointsIn g pts v ↔ p ∈ pts ∧ voxIdx g p = v) ∧ (pointsIn g pts v).length = (allIdx g pts).count v := by
+  unfold pointsIn
+  refine ⟨fun p => by simp [List.mem_filter], ?_⟩
+  unfold allIdx
+  rw [List.count_eq_length_filter, List.filter_map, List.length_map]
+  congr 1
+
+example : pointsIn gEx ptsEx ⟨0, 0, 0⟩ = [⟨1 / 4, 1 / 2, 1⟩, ⟨1 / 4, 1 / 2, 1⟩] := by decide +kernel
+
+/-! ## 6. skeleton → tangents: lookup by id, roots and zero-length edges dropped, the normalised vector -/
+
+/-- **parent_lookup_by_id.** With unique node ids the parent position is found by *id*: it is the position of the one row
+carrying that id, whatever the row order (unsorted, shuffled, reversed tables give the same answer). -/
+theorem parent_lookup_by_id (t : List Row) (hn : (t.map (·.id)).Nodup) (i : Int) :
+    (∀ p, lookup t i = some p ↔ ∃ r ∈ t, r.id = i ∧ r.p = p) ∧
+    (∀ t', t.Perm t' → lookup t' i = lookup t i) :=
+  ⟨fun p => lookup_eq_some_iff t hn i p, fun t' hp => (lookup_perm t t' hp hn i).symm⟩
+
+/-- **tangents_characterised.** When every parent id resolves, a tangent is produced exactly for the rows that (a) are not roots
+(`parent_id ≥ 0`), and (b) do not sit at their parent's position; it is the `edgeTangent` of the row's and the looked-up parent's
+positions.  Nothing else is produced; roots and zero-length edges produce nothing.  The count is the number of non-root rows
+minus the number of zero-length edges. -/
+theorem tangents_characterised (t : List Row) (es : List (P3 × P3)) (h : edgePairs t = some es) :
+    (∀ tg, tg ∈ (es.filter fun e => decide (e.1 ≠ e.2)).map (fun e => edgeTangent e.1 e.2) ↔
+      ∃ r ∈ t, 0 ≤ r.parent ∧ ∃ q, lookup t r.parent = some q ∧ r.p ≠ q ∧ tg = edgeTangent r.p q) ∧
+    tangents t = some ((es.filter fun e => decide (e.1 ≠ e.2)).map fun e => edgeTangent e.1 e.2) ∧
+    es.length = (t.filter fun r => 0 ≤ r.parent).length ∧
+    ((es.filter fun e => decide (e.1 ≠ e.2)).map fun e => edgeTangent e.1 e.2).length
+      = (t.filter fun r => 0 ≤ r.parent).length - (es.filter fun e => decide (e.1 = e.2)).length := by
+  refine ⟨?_, tangents_eq t es h, edgePairs_length t es h, ?_⟩
+  · intro tg
+    rw [List.mem_map]
+    constructor
+    · rintro ⟨e, he, rfl⟩
+      obtain ⟨he1, he2⟩ := List.mem_filter.mp he
+      obtain ⟨r, hr, hpar, hl, hp⟩ := (edgePairs_mem t es h e).mp he1
+      exact ⟨r, hr, hpar, e.2, hl, by rw [hp]; simpa using he2, by rw [hp]⟩
+    · rintro ⟨r, hr, hpar, q, hl, hne, rfl⟩
+      refine ⟨(r.p, q), List.mem_filter.mpr ⟨(edgePairs_mem t es h (r.p, q)).mpr ⟨r, hr, hpar, hl, rfl⟩, by simpa using hne⟩, rfl⟩
+  · rw [List.length_map, ← edgePairs_length t es h]
+    have : ∀ l : List (P3 × P3), (l.filter fun e => decide (e.1 ≠ e.2)).length + (l.filter fun e => decide (e.1 = e.2)).length = l.length := by
+      intro l
+      induction l with
+      | nil => rfl
+      | cons e l ih =>
+        by_cases he : e.1 = e.2
+        · simp only [List.filter_cons, he, ne_eq, not_true_eq_false, decide_false, decide_true, if_true, List.length_cons] at *
+          simp at ih ⊢; omega
+        · simp only [List.filter_cons, he, ne_eq, not_false_eq_true, decide_true, decide_false, if_true, List.length_cons] at *
+          simp at ih ⊢; omega
+    have := this es
+    omega
+
+/-- **tanOKB_sound.** What the checker applied to navis' normalised vector `v` and length `L` certifies against the exact
+tangent: `|v|² = 1 ± ε`, `|v × w|² ≤ ε²|v|²|w|²` — by Lagrange's identity `(v·w)² ≥ (1 − ε²)|v|²|w|²`, i.e. the angle between `v` and
+the edge has `sin² ≤ ε²` — `L > 0` and `L² = |w|² (1 ± ε)`. -/
+theorem tanOKB_sound (tg : Tangent) (v : P3) (L ε : Rat) (h : tanOKB tg v L ε = true) :
+    (norm2 v - 1 ≤ ε ∧ -ε ≤ norm2 v - 1) ∧
+    dot v tg.vec * dot v tg.vec ≥ (1 - ε * ε) * (norm2 v * norm2 tg.vec) ∧
+    0 < L ∧ (L * L - tg.len2 ≤ ε * tg.len2 ∧ -(ε * tg.len2) ≤ L * L - tg.len2) := by
+  unfold tanOKB unitB at h
+  simp only [Bool.and_eq_true, decide_eq_true_eq, absLe_iff] at h
+  obtain ⟨⟨⟨hu, hc⟩, hL⟩, hl⟩ := h
+  refine ⟨hu, ?_, hL, hl⟩
+  have := lagrange v tg.vec
+  nlinarith
+
+/-- **normalised_tangent_exact.** For an edge of rational length `m` (`|child − parent|² = m²`, e.g. the integer-length edges of
+the generator) the exactly normalised vector `(child − parent)/m` and `L = m` pass the checker with tolerance `0`. -/
+theorem normalised_tangent_exact (c q : P3) (m : Rat) (hm : 0 < m) (hl : norm2 (sub c q) = m * m) :
+    tanOKB (edgeTangent c q) (scale (1 / m) (sub c q)) m 0 = true := by
+  have hn : norm2 (scale (1 / m) (sub c q)) = 1 := by
+    have : norm2 (scale (1 / m) (sub c q)) = (1 / m) * (1 / m) * norm2 (sub c q) := by unfold norm2 dot scale; ring
+    rw [this, hl]; field_simp
+  have hc : cross (scale (1 / m) (sub c q)) (sub c q) = ⟨0, 0, 0⟩ := by unfold cross scale; congr 1 <;> ring
+  unfold tanOKB unitB
+  simp only [Bool.and_eq_true, decide_eq_true_eq, absLe_iff]
+  have hv : (edgeTangent c q).vec = sub c q := rfl
+  have hl2 : (edgeTangent c q).len2 = norm2 (sub c q) := rfl
+  have h0 : norm2 (⟨0, 0, 0⟩ : P3) = 0 := by unfold norm2 dot; norm_num
+  rw [hv, hl2, hn, hc, hl, h0]
+  norm_num
+  exact hm
+
+example : tanOKB (edgeTangent ⟨1, 2, 2⟩ ⟨0, 0, 0⟩) ⟨1 / 3, 2 / 3, 2 / 3⟩ 3 0 = true ∧
+    tanOKB (edgeTangent ⟨1, 2, 2⟩ ⟨0, 0, 0⟩) ⟨2 / 3, 1 / 3, 2 / 3⟩ 3 (1 / 100) = false := by decide +kernel
+
+/-! ## 7. point cloud → dotprops: neighbour selection, scatter matrix, principal axis, alpha -/
+
+/-- **knn_spec.** The neighbourhood of `p` consists of `min k n` points of the cloud (never more than there are), every one of
+them at most as far from `p` as every point left out, selected and left-out points together are the cloud, and for `k ≥ 1` it
+contains `p` itself (the self-hit). -/
+theorem knn_spec (pts : List P3) (p : P3) (k : Nat) :
+    (knn pts p k).length = min k pts.length ∧ (∀ q ∈ knn pts p k, q ∈ pts) ∧
+    (∀ a ∈ knn pts p k, ∀ b ∈ (sortBy (dist2 p) pts).drop k, dist2 p a ≤ dist2 p b) ∧
+    (knn pts p k ++ (sortBy (dist2 p) pts).drop k).Perm pts ∧
+    (p ∈ pts → 1 ≤ k → p ∈ knn pts p k) :=
+  ⟨knn_length pts p k, knn_mem pts p k, fun a ha b hb => knn_nearest pts p k a b ha hb, knn_partition pts p k,
+   knn_self pts p k⟩
+
+/-- **neighbourhoods_never_exceed_cloud.** `make_dotprops` forms one neighbourhood per (finite) point, each of exactly
+`min n k` points — all `n` points when `k > n`, the single point itself when `n = 1`. -/
+theorem neighbourhoods_never_exceed_cloud (pts : List P3) (k : Nat) :
+    (neighbourhoods pts k).length = pts.length ∧
+    (∀ nb ∈ neighbourhoods pts k, nb.length = min pts.length k ∧ nb.length ≤ pts.length ∧ ∀ q ∈ nb, q ∈ pts) ∧
+    (pts.length ≤ k → ∀ nb ∈ neighbourhoods pts k, nb.Perm pts) := by
+  unfold neighbourhoods
+  refine ⟨List.length_map _, ?_, ?_⟩
+  · intro nb hnb
+    obtain ⟨p, _, rfl⟩ := List.mem_map.mp hnb
+    have hl := knn_length pts p (kClip pts.length k)
+    unfold kClip at *
+    refine ⟨by omega, by omega, knn_mem pts p _⟩
+  · intro hk nb hnb
+    obtain ⟨p, _, rfl⟩ := List.mem_map.mp hnb
+    unfold knn kClip
+    rw [Nat.min_eq_left hk, List.take_of_length_le (by rw [(sortBy_perm _ pts).length_eq])]
+    exact sortBy_perm _ pts
+
+example : knn [⟨0, 0, 0⟩, ⟨5, 0, 0⟩, ⟨1, 0, 0⟩, ⟨0, 2, 0⟩] ⟨0, 0, 0⟩ 3 = [⟨0, 0, 0⟩, ⟨1, 0, 0⟩, ⟨0, 2, 0⟩] ∧
+    knnAmbiguous [⟨0, 0, 0⟩, ⟨5, 0, 0⟩, ⟨1, 0, 0⟩, ⟨0, 2, 0⟩] ⟨0, 0, 0⟩ 3 = false ∧
+    knnAmbiguous [⟨0, 0, 0⟩, ⟨0, 1, 0⟩, ⟨1, 0, 0⟩] ⟨0, 0, 0⟩ 2 = true ∧
+    knnAmbiguous [⟨0, 0, 0⟩, ⟨1, 0, 0⟩, ⟨1, 0, 0⟩] ⟨0, 0, 0⟩ 2 = false := by decide +kernel
+
+/-- **scatter_matrix_spec.** The 3×3 matrix navis hands to the SVD (`cptᵀ @ cpt`) acts as `w ↦ Σ (cᵢ·w) cᵢ`, its trace is
+`Σ |cᵢ|²`, its quadratic form is `Σ (cᵢ·w)² ≥ 0` (positive semi-definite, so singular values = eigenvalues ≥ 0). -/
+theorem scatter_matrix_spec (cs : List P3) (w : P3) :
+    (inertiaMat cs).mulVec w = inertiaApply cs w ∧ (inertiaMat cs).trace = (cs.map norm2).sum ∧
+    (inertiaMat cs).quad w = (cs.map fun c => dot c w * dot c w).sum ∧ 0 ≤ (inertiaMat cs).quad w ∧ 0 ≤ (inertiaMat cs).trace :=
+  ⟨mulVec_inertiaMat cs w, trace_inertiaMat cs, quad_inertiaMat cs w, quad_inertiaMat_nonneg cs w, trace_inertiaMat_nonneg cs⟩
+
+/-- **degenerate_iff_coincident.** The scatter matrix of a neighbourhood has trace `0` — the case in which navis' guarded
+division returns `alpha = 0` — exactly when all its points coincide (duplicates with multiplicity ≥ k, a single point, `k = 1`). -/
+theorem degenerate_iff_coincident (nb : List P3) :
+    ((nbInertia nb).trace = 0 ↔ ∀ q ∈ nb, q = centre nb) ∧
+    (∀ s1 s2 s3 : Rat, s1 + s2 + s3 = (nbInertia nb).trace → (∀ q ∈ nb, q = centre nb) → alpha s1 s2 s3 = 0) := by
+  refine ⟨trace_nbInertia_eq_zero_iff nb, ?_⟩
+  intro s1 s2 s3 hs hall
+  have : (nbInertia nb).trace = 0 := (trace_nbInertia_eq_zero_iff nb).mpr hall
+  unfold alpha
+  rw [hs, this, if_neg (lt_irrefl 0)]
+
+example : (nbInertia [⟨1, 1, 1⟩, ⟨1, 1, 1⟩, ⟨1, 1, 1⟩]).trace = 0 ∧ (nbInertia [⟨7, 2, 3⟩]).trace = 0 ∧
+    nbInertia [⟨0, 0, 0⟩, ⟨2, 0, 0⟩, ⟨1, 3, 0⟩] = ⟨2, 0, 0, 6, 0, 0⟩ := by decide +kernel
+
+/-- **scatter_invariances.** The scatter matrix of a neighbourhood — hence the principal axis and alpha — depends neither on the order
+in which the KD-tree lists the neighbours nor on where the cloud sits: a common offset drops out (tangents of a `VoxelNeuron`'s voxels
+are the same with or without its `offset`). -/
+theorem scatter_invariances (nb : List P3) :
+    (∀ nb', nb.Perm nb' → nbInertia nb' = nbInertia nb) ∧ (∀ t, nbInertia (nb.map (add t)) = nbInertia nb) :=
+  ⟨fun _ h => (nbInertia_perm h).symm, fun t => nbInertia_translate t nb⟩
+
+example : nbInertia [⟨10, 20, 30⟩, ⟨12, 20, 30⟩, ⟨11, 23, 30⟩] = nbInertia [⟨0, 0, 0⟩, ⟨2, 0, 0⟩, ⟨1, 3, 0⟩] ∧
+    nbInertia [⟨1, 3, 0⟩, ⟨0, 0, 0⟩, ⟨2, 0, 0⟩] = nbInertia [⟨0, 0, 0⟩, ⟨2, 0, 0⟩, ⟨1, 3, 0⟩] := by decide +kernel
+
+/-- **principal_axis_variational.** `v` maximises the Rayleigh quotient `wᵀAw / wᵀw` if and only if `A v = λ v` with `λ = vᵀAv/vᵀv`
+and no direction exceeds `λ` — "the principal axis is the eigenvector of the largest eigenvalue".  Every eigenvalue is a root
+of the characteristic polynomial `det (t·I − A)`. -/
+theorem principal_axis_variational (A : Sym3) (v : P3) (hv : norm2 v ≠ 0) :
+    ((∀ w, A.quad w * norm2 v ≤ A.quad v * norm2 w) ↔
+      (A.mulVec v = scale (rayleigh A v) v ∧ ∀ w, A.quad w ≤ rayleigh A v * norm2 w)) ∧
+    (∀ lam, A.mulVec v = scale lam v → A.charpoly lam = 0) := by
+  have hpos : 0 < norm2 v := lt_of_le_of_ne (norm2_nonneg v) (Ne.symm hv)
+  have hq := quad_eq_rayleigh A v hv
+  refine ⟨⟨?_, ?_⟩, ?_⟩
+  · intro h
+    have htop : ∀ w, A.quad w ≤ rayleigh A v * norm2 w := by
+      intro w
+      have := h w
+      rw [hq] at this
+      have e : rayleigh A v * norm2 v * norm2 w = (rayleigh A v * norm2 w) * norm2 v := by ring
+      rw [e] at this
+      exact le_of_mul_le_mul_right this hpos
+    exact ⟨rayleigh_max_eigen A v _ hq htop, htop⟩
+  · rintro ⟨_, htop⟩ w
+    rw [hq]
+    have := mul_le_mul_of_nonneg_right (htop w) (le_of_lt hpos)
+    linarith
+  · intro lam h
+    exact eigen_root A v lam (fun e => hv (by rw [e]; unfold norm2 dot; norm_num)) h
+
+/-- **axis_checker_sound.** If `axisOKB A v ε` accepts navis' tangent `v`, then `v` is an eigenvector up to a residual of
+`ε·tr(A)·|v|` and no direction has a Rayleigh quotient more than `ε·tr(A)` above that of `v`.  Conversely an exact eigenvector for
+the largest eigenvalue is accepted for every `ε` with `ε·tr(A) > 0` (no false alarm on exact data). -/
+theorem axis_checker_sound (A : Sym3) (v : P3) (ε : Rat) :
+    (axisOKB A v ε = true →
+      norm2 (sub (A.mulVec v) (scale (rayleigh A v) v)) ≤ (ε * A.trace) * (ε * A.trace) * norm2 v ∧
+      ∀ w, A.quad w ≤ (rayleigh A v + ε * A.trace) * norm2 w) ∧
+    (∀ lam, norm2 v ≠ 0 → A.mulVec v = scale lam v → (∀ w, A.quad w ≤ lam * norm2 w) → 0 < ε * A.trace → axisOKB A v ε = true) :=
+  ⟨axisOKB_sound A v ε, fun lam hv he ht hε => axisOKB_complete A v lam ε hv he ht hε⟩
+
+/-- Points `(±2,0,0), (0,±1,0)`: scatter matrix `diag(8, 2, 0)`; the x axis passes, the y axis (an eigenvector, but not of the largest
+eigenvalue) and a tilted vector fail. -/
+example : axisOKB ⟨8, 0, 0, 2, 0, 0⟩ ⟨1, 0, 0⟩ (1 / 1000) = true ∧ axisOKB ⟨8, 0, 0, 2, 0, 0⟩ ⟨0, 1, 0⟩ (1 / 1000) = false ∧
+    axisOKB ⟨8, 0, 0, 2, 0, 0⟩ ⟨4 / 5, 3 / 5, 0⟩ (1 / 1000) = false := by decide +kernel
+
+/-- **alpha_checker_sound.** If `alphaOKB A l1 a ε` accepts navis' `a`, then with `l2 = l1 − a·tr`, `l3 = tr − l1 − l2`:
+`l1 + l2 + l3 = tr(A)` exactly (the denominator of alpha is the trace), `a = (l1 − l2)/(l1 + l2 + l3)`, the three values are
+ordered `l1 ≳ l2 ≳ l3 ≳ 0` up to `ε·tr`, and `(t − l1)(t − l2)(t − l3)` differs from the characteristic polynomial of `A` by at most
+`ε·tr²·|t| + ε·tr³` for every `t` — they are, up to the tolerance, the eigenvalues of `A`. -/
+theorem alpha_checker_sound (A : Sym3) (lam a ε : Rat) (h : alphaOKB A lam a ε = true) :
+    lam + impliedL2 A lam a + impliedL3 A lam a = A.trace ∧
+    (A.trace ≠ 0 → a = (lam - impliedL2 A lam a) / (lam + impliedL2 A lam a + impliedL3 A lam a)) ∧
+    (∀ t, |A.charpoly t - (t - lam) * (t - impliedL2 A lam a) * (t - impliedL3 A lam a)| ≤
+        ε * A.trace * A.trace * |t| + ε * A.trace * A.trace * A.trace) ∧
+    impliedL2 A lam a ≤ lam + ε * A.trace ∧ impliedL3 A lam a ≤ impliedL2 A lam a + ε * A.trace ∧
+    -(ε * A.trace) ≤ impliedL3 A lam a :=
+  ⟨implied_sum A lam a, implied_alpha A lam a, (alphaOKB_sound A lam a ε h).1, (alphaOKB_sound A lam a ε h).2⟩
+
+/-- **alpha_checker_exact.** With tolerance `0` the accepted values are *exactly* the roots of the characteristic polynomial,
+ordered and non-negative, and `a` is the property's `(l1 − l2)/(l1 + l2 + l3) ∈ [0, 1]`. -/
+theorem alpha_checker_exact (A : Sym3) (lam a : Rat) (h : alphaOKB A lam a 0 = true) (htr : 0 < A.trace) :
+    (∀ t, A.charpoly t = (t - lam) * (t - impliedL2 A lam a) * (t - impliedL3 A lam a)) ∧
+    a = alpha lam (impliedL2 A lam a) (impliedL3 A lam a) ∧ 0 ≤ a ∧ a ≤ 1 := by
+  obtain ⟨hs, ha, hc, o1, o2, o3⟩ := alpha_checker_sound A lam a 0 h
+  simp only [zero_mul, add_zero, neg_zero] at hc o1 o2 o3
+  have hcp : ∀ t, A.charpoly t = (t - lam) * (t - impliedL2 A lam a) * (t - impliedL3 A lam a) := by
+    intro t
+    have := hc t
+    have h0 : A.charpoly t - (t - lam) * (t - impliedL2 A lam a) * (t - impliedL3 A lam a) = 0 :=
+      abs_eq_zero.mp (le_antisymm (by simpa using this) (abs_nonneg _))
+    linarith
+  have hal : a = alpha lam (impliedL2 A lam a) (impliedL3 A lam a) := by
+    unfold alpha
+    rw [if_pos (by rw [hs]; exact htr)]
+    exact ha (ne_of_gt htr)
+  have hr := (alpha_range lam (impliedL2 A lam a) (impliedL3 A lam a) o1 o2 o3).1
+  exact ⟨hcp, hal, by rw [hal]; exact hr.1, by rw [hal]; exact hr.2⟩
+
+/-- **alpha_checker_complete.** Conversely the exact eigenvalues `l1 ≥ l2 ≥ l3 ≥ 0` (the roots of the characteristic polynomial) and the
+exact `alpha = (l1 − l2)/tr` are accepted with tolerance `0`: on exact data the checker raises no false alarm. -/
+theorem alpha_checker_complete (A : Sym3) (l1 l2 l3 : Rat) (h12 : l2 ≤ l1) (h23 : l3 ≤ l2) (h3 : 0 ≤ l3)
+    (hcp : ∀ t, A.charpoly t = (t - l1) * (t - l2) * (t - l3)) (htr : A.trace ≠ 0) :
+    alphaOKB A l1 ((l1 - l2) / A.trace) 0 = true :=
+  alphaOKB_complete A l1 l2 l3 h12 h23 h3 hcp htr
+
+/-- `diag(8, 2, 0)`: alpha `= (8 − 2)/10`; `(8 − 0)/10` (second and third singular value swapped) and `2/10` are rejected. -/
+example : alphaOKB ⟨8, 0, 0, 2, 0, 0⟩ 8 (3 / 5) 0 = true ∧ alphaOKB ⟨8, 0, 0, 2, 0, 0⟩ 8 (4 / 5) (1 / 1000) = false ∧
+    alphaOKB ⟨8, 0, 0, 2, 0, 0⟩ 8 (1 / 5) (1 / 1000) = false := by decide +kernel
+
+/-- **judge_ok_sound.** The verdict `ok` for a point means all three: unit tangent, principal axis of the exact scatter matrix of its
+neighbourhood, alpha from that matrix' eigenvalues; `degenerate` means coincident neighbourhood, unit tangent and `alpha = 0`. -/
+theorem judge_ok_sound (nb : List P3) (v : P3) (a εu εv εa : Rat) :
+    (judge nb v a εu εv εa = .ok →
+      unitB v εu = true ∧ (nbInertia nb).trace ≠ 0 ∧ axisOKB (nbInertia nb) v εv = true ∧
+      alphaOKB (nbInertia nb) (rayleigh (nbInertia nb) v) a εa = true) ∧
+    (judge nb v a εu εv εa = .degenerate → unitB v εu = true ∧ (∀ q ∈ nb, q = centre nb) ∧ a = 0) := by
+  unfold judge
+  constructor
+  · intro h
+    split at h
+    · cases h
+    · rename_i hu
+      split at h
+      · split at h <;> cases h
+      · rename_i ht
+        split at h
+        · cases h
+        · rename_i hax
+          split at h
+          · cases h
+          · rename_i hal
+            exact ⟨by simpa using hu, ht, by simpa using hax, by simpa using hal⟩
+  · intro h
+    split at h
+    · cases h
+    · rename_i hu
+      split at h
+      · rename_i ht
+        split at h
+        · rename_i ha
+          exact ⟨by simpa using hu, (trace_nbInertia_eq_zero_iff nb).mp ht, ha⟩
+        · cases h
+      · split at h
+        · cases h
+        · split at h <;> cases h
+
+example : judge [⟨-2, 0, 0⟩, ⟨2, 0, 0⟩, ⟨0, -1, 0⟩, ⟨0, 1, 0⟩] ⟨1, 0, 0⟩ (3 / 5) (1 / 1000) (1 / 1000) (1 / 1000) = .ok ∧
+    judge [⟨-2, 0, 0⟩, ⟨2, 0, 0⟩, ⟨0, -1, 0⟩, ⟨0, 1, 0⟩] ⟨0, 1, 0⟩ (3 / 5) (1 / 1000) (1 / 1000) (1 / 1000) = .badAxis ∧
+    judge [⟨1, 1, 1⟩, ⟨1, 1, 1⟩] ⟨1, 0, 0⟩ 0 (1 / 1000) (1 / 1000) (1 / 1000) = .degenerate := by decide +kernel
+
+/-! ## 8. meshes: the exact sub-claims of the oracle-only clauses -/
+
+/-- **mesh_checkers_sound.** The checkers the driver evaluates on navis' meshes / skeletons mean what they say: every vertex is
+mapped (`vertex_map` has one entry per vertex) to a node index in range / to an existing node id; every required node occurs in
+the map; every point lies in the (tight) bounding box of the vertex set widened by `tol`. -/
+theorem mesh_checkers_sound (vm : List Int) (nV nNodes : Nat) (ids need : List Int) (V P : List P3) (tol : Rat) :
+    (vmapIndexOKB vm nV nNodes = true ↔ vm.length = nV ∧ ∀ i ∈ vm, 0 ≤ i ∧ i < (nNodes : Int)) ∧
+    (vmapIdOKB vm nV ids = true ↔ vm.length = nV ∧ ∀ i ∈ vm, i ∈ ids) ∧
+    (vmapCoversB vm need = true ↔ ∀ i ∈ need, i ∈ vm) ∧
+    (bboxContainsB V P tol = true → V ≠ [] → ∀ p ∈ P,
+      (∃ a ∈ V, a.x - tol ≤ p.x) ∧ (∃ b ∈ V, p.x ≤ b.x + tol) ∧ (∃ a ∈ V, a.y - tol ≤ p.y) ∧ (∃ b ∈ V, p.y ≤ b.y + tol) ∧
+      (∃ a ∈ V, a.z - tol ≤ p.z) ∧ (∃ b ∈ V, p.z ≤ b.z + tol)) := by
+  refine ⟨?_, ?_, ?_, ?_⟩
+  · unfold vmapIndexOKB
+    simp only [Bool.and_eq_true, decide_eq_true_eq, List.all_eq_true]
+  · unfold vmapIdOKB
+    simp only [Bool.and_eq_true, decide_eq_true_eq, List.all_eq_true, List.contains_iff_mem]
+  · unfold vmapCoversB
+    simp only [List.all_eq_true, List.contains_iff_mem]
+  · intro h hV p hp
+    unfold bboxContainsB at h
+    cases hb : bboxOf V with
+    | none => cases V with
+      | nil => exact absurd rfl hV
+      | cons q l => simp [bboxOf] at hb
+    | some lh =>
+      obtain ⟨lo, hi⟩ := lh
+      rw [hb] at h
+      have hin := (inBoxB_iff lo hi tol p).mp (List.all_eq_true.mp h p hp)
+      obtain ⟨_, ⟨ax, hax, eax⟩, ⟨bx, hbx, ebx⟩, ⟨ay, hay, eay⟩, ⟨by', hby, eby⟩, ⟨az, haz, eaz⟩, ⟨bz, hbz, ebz⟩⟩ :=
+        bboxOf_spec V lo hi hb
+      exact ⟨⟨ax, hax, by rw [eax]; exact hin.1.1⟩, ⟨bx, hbx, by rw [ebx]; exact hin.1.2⟩,
+             ⟨ay, hay, by rw [eay]; exact hin.2.1.1⟩, ⟨by', hby, by rw [eby]; exact hin.2.1.2⟩,
+             ⟨az, haz, by rw [eaz]; exact hin.2.2.1⟩, ⟨bz, hbz, by rw [ebz]; exact hin.2.2.2⟩⟩
+
+/-- **hugging_surface_stays_in_extent.** A surface whose every vertex lies within half a voxel (plus `tol`) of a filled voxel of the
+grid, in the grid's coordinates `offset + index · units`, lies within the grid's extent
+`[offset − units/2, offset + (shape − 1)·units + units/2]` (± `tol·units`): the first oracle implies the clause of the statement. -/
+theorem hugging_surface_stays_in_extent (off un : P3) (sh : I3) (tol : Rat) (V : List P3) (F : List I3)
+    (hun : 0 < un.x ∧ 0 < un.y ∧ 0 < un.z)
+    (hF : ∀ v ∈ F, (0 ≤ v.x ∧ v.x < sh.x) ∧ (0 ≤ v.y ∧ v.y < sh.y) ∧ (0 ≤ v.z ∧ v.z < sh.z))
+    (h : surfaceHugsB off un tol V F = true) : surfaceInExtentB off un sh tol V = true := by
+  unfold surfaceInExtentB
+  rw [List.all_eq_true]
+  intro q hq
+  obtain ⟨v, hv, hh⟩ := List.any_eq_true.mp (List.all_eq_true.mp h q hq)
+  unfold hugsB at hh
+  simp only [Bool.and_eq_true] at hh
+  obtain ⟨⟨hx, hy⟩, hz⟩ := hh
+  obtain ⟨⟨x0, x1⟩, ⟨y0, y1⟩, ⟨z0, z1⟩⟩ := hF v hv
+  have ex := hug_extent1 off.x un.x tol q.x v.x sh.x hun.1 x0 x1 hx
+  have ey := hug_extent1 off.y un.y tol q.y v.y sh.y hun.2.1 y0 y1 hy
+  have ez := hug_extent1 off.z un.z tol q.z v.z sh.z hun.2.2 z0 z1 hz
+  simp only [Bool.and_eq_true, decide_eq_true_eq]
+  exact ⟨⟨⟨⟨⟨ex.1, ex.2⟩, ey.1⟩, ey.2⟩, ez.1⟩, ez.2⟩
+
+/-- The candidate-voxel evaluation the driver uses is sound: it accepts only surfaces that `surfaceHugsB` accepts. -/
+theorem surface_fast_sound (off un : P3) (tol : Rat) (V : List P3) (F : List I3)
+    (h : surfaceHugsFastB off un tol V F = true) : surfaceHugsB off un tol V F = true := by
+  unfold surfaceHugsFastB at h
+  unfold surfaceHugsB
+  rw [List.all_eq_true] at *
+  intro q hq
+  obtain ⟨v, _, hv⟩ := List.any_eq_true.mp (h q hq)
+  simp only [Bool.and_eq_true, List.contains_iff_mem] at hv
+  exact List.any_eq_true.mpr ⟨v, hv.1, hv.2⟩
+
+example : surfaceHugsFastB ⟨10, 20, 30⟩ ⟨1 / 2, 1 / 4, 2⟩ 0 [⟨45 / 4, 81 / 4, 31⟩] [⟨2, 1, 0⟩] = true := by decide +kernel
+
+example : surfaceHugsB ⟨10, 20, 30⟩ ⟨1 / 2, 1 / 4, 2⟩ 0 [⟨45 / 4, 81 / 4, 31⟩] [⟨2, 1, 0⟩] = true ∧
+    surfaceInExtentB ⟨10, 20, 30⟩ ⟨1 / 2, 1 / 4, 2⟩ ⟨4, 4, 4⟩ 0 [⟨45 / 4, 81 / 4, 31⟩] = true ∧
+    surfaceInExtentB ⟨10, 20, 30⟩ ⟨1 / 2, 1 / 4, 2⟩ ⟨4, 4, 4⟩ 0 [⟨9, 21, 31⟩] = false := by decide +kernel
+
+/-! ## 9. facts re-extracted from the current navis source (`Gen/Conv.lean`, regenerated on every run)
+
+`envOf` assigns scalars to the names of an extracted expression (numpy arithmetic is elementwise: one coordinate suffices). -/
+section source
+open Navis.ConvExpr Navis.Gen.Conv
+
+def envOf (l : List (String × Rat)) : String → Rat := fun n => ((l.find? fun e => e.1 = n).map (·.2)).getD 0
+
+/-- **src_voxel_index.** The index expressions in `_make_voxels` / `neuron2voxels` — for the unique voxels *and* for the per-point
+indices used by the `vectors`/`alphas` loop — evaluate to the model's `round(p/pitch) − round(lo/pitch)` (numpy `round`, half to even,
+for both terms). -/
+theorem src_voxel_index (p pitch lo : Rat) :
+    eval (envOf [("pts", p), ("pitch", pitch), ("lo", lo)]) rawIndexE = (ix1 pitch p : Rat) ∧
+    eval (envOf [("pts", p), ("pitch", pitch), ("lo", lo)]) voxelIndexE = (idx1 pitch lo p : Rat) ∧
+    eval (envOf [("pts", p), ("pitch", pitch), ("lo", lo)]) pointIndexE = (idx1 pitch lo p : Rat) ∧
+    interpreted rawIndexE = true ∧ interpreted voxelIndexE = true ∧ interpreted pointIndexE = true := by
+  refine ⟨?_, ?_, ?_, by decide, by decide, by decide⟩ <;>
+    simp [rawIndexE, voxelIndexE, pointIndexE, eval, envOf, idx1, ix1]
+
+/-- **src_shape_offset_units.** Grid shape `ceil(ceil(hi/pitch) − floor(lo/pitch)) + 1`, `offset = lo/pitch·pitch·u`,
+`units = pitch·u` — the `shape=` of the grid array and the `offset=` / `units=` handed to `VoxelNeuron(...)` — are the model's `shape1`,
+`offset1`, `units1`. -/
+theorem src_shape_offset_units (pitch lo hi u : Rat) :
+    eval (envOf [("pitch", pitch), ("lo", lo), ("hi", hi), ("u", u)]) shapeE = (shape1 pitch lo hi : Rat) ∧
+    eval (envOf [("pitch", pitch), ("lo", lo), ("hi", hi), ("u", u)]) offsetE = offset1 pitch lo u ∧
+    eval (envOf [("pitch", pitch), ("lo", lo), ("hi", hi), ("u", u)]) unitsE = units1 pitch u ∧
+    interpreted shapeE = true ∧ interpreted offsetE = true ∧ interpreted unitsE = true := by
+  refine ⟨?_, ?_, ?_, by decide, by decide, by decide⟩
+  · simp only [shapeE, eval, envOf, shape1, List.find?, Option.map, Option.getD]
+    simp
+    rw [← Int.cast_sub, Rat.ceil_intCast]
+  · first | (simp [offsetE, eval, envOf, offset1]; done) | (simp [offsetE, eval, envOf, offset1]; ring)
+  · first | (simp [unitsE, eval, envOf, units1]; done) | (simp [unitsE, eval, envOf, units1]; ring)
+
+/-- **src_clipping.** The mask that keeps a voxel is `idx ≥ 0 ∧ idx < shape` (`inGrid`), it is applied to the voxels and — under
+`counts` — to the counts; the `vectors`/`alphas` loop runs over the shifted per-point indices and skips exactly the complement
+(`idx < 0 ∨ idx ≥ shape`); `_make_voxels` is called without stripping; a `(2, 3)` bounds array is transposed; the default bounds are
+`x.bbox`.  (`idx` is the array that indexes `grid[...] = True` and `grid[...] = counts` — the same array in both branches, or the
+translator fails — and `shape` the `shape=` of the grid.) -/
+theorem src_clipping :
+    inBoundsMask = [⟨"idx.min", ">=", "0"⟩, ⟨"idx", "<", "shape"⟩] ∧ voxelsFiltered = true ∧ countsFiltered = true ∧
+    loopSkip = [⟨"idx", "<", "0"⟩, ⟨"idx", ">=", "shape"⟩] ∧ loopSelects = "inverse==i" ∧ makeVoxelsStrip = false ∧
+    transposes23 = true ∧ defaultBounds = "x.bbox" := by decide
+
+/-- **src_midpoint_vector.** `points = child + (parent − child)/2` evaluates to the midpoint `(child + parent)/2`; the tangent is
+`±(child − parent)` (its square is pinned, the orientation is not part of the property); the length is `sqrt(Σ vect²)`; rows are
+kept when `parent_id ≥ 0`; the parent is looked up with `.loc[parent_id]` on the `node_id` index; all three arrays are filtered with
+`length ≠ 0`; the vector is divided by its norm (`points`, `vect`, `length` are the three positions of the `return`). -/
+theorem src_midpoint_vector (c q : Rat) :
+    eval (envOf [("child", c), ("parent", q)]) midpointE = (c + q) / 2 ∧
+    eval (envOf [("child", c), ("parent", q)]) tangentVectE * eval (envOf [("child", c), ("parent", q)]) tangentVectE
+      = (c - q) * (c - q) ∧
+    interpreted midpointE = true ∧ interpreted tangentVectE = true ∧
+    lengthE = .op1 "sqrt" (.op1 "sum" (.mul tangentVectE tangentVectE)) ∧
+    normalisedE = .div (.var "vect") (.op1 "norm" (.var "vect")) ∧
+    rootFilter = ⟨"parent_id", ">=", "0"⟩ ∧ parentIndexColumn = "node_id" ∧ parentLookupKey = "parent_id" ∧
+    zeroLengthFilters = [("points", ⟨"length", "!=", "0"⟩), ("vect", ⟨"length", "!=", "0"⟩), ("length", ⟨"length", "!=", "0"⟩)] := by
+  refine ⟨?_, ?_, by decide, by decide, by decide, by decide, by decide, by decide, by decide, by decide⟩
+  · first | (simp [midpointE, eval, envOf]; done) | (simp [midpointE, eval, envOf]; ring)
+  · first | (simp [tangentVectE, eval, envOf]; done) | (simp [tangentVectE, eval, envOf]; ring)
+
+/-- **src_alpha.** The alpha expressions of `make_dotprops`, `Dotprops.recalculate_tangents` and of the voxel loop all evaluate to
+the model's `alpha s₀ s₁ s₂ = (s₀ − s₁)/(s₀ + s₁ + s₂)` guarded by `sum > 0`; in all three the tangent is row `0` of `vh` (the first
+right-singular vector) of the SVD of `cptᵀ @ cpt` with `cpt = pt − mean(pt)`. -/
+theorem src_alpha (s0 s1 s2 : Rat) :
+    eval (envOf [("s[:,0]", s0), ("s[:,1]", s1), ("s[:,2]", s2)]) dotsAlphaE = alpha s0 s1 s2 ∧
+    eval (envOf [("s[:,0]", s0), ("s[:,1]", s1), ("s[:,2]", s2)]) recalcAlphaE = alpha s0 s1 s2 ∧
+    eval (envOf [("s[:,0]", s0), ("s[:,1]", s1), ("s[:,2]", s2)]) voxelAlphaE = alpha s0 s1 s2 ∧
+    interpreted dotsAlphaE = true ∧ interpreted recalcAlphaE = true ∧ interpreted voxelAlphaE = true ∧
+    dotsVectIndex = ":,0,:" ∧ recalcVectIndex = ":,0,:" ∧ voxelVectIndex = ":,0,:" ∧
+    dotsSvdOfInertia = true ∧ recalcSvdOfInertia = true ∧
+    dotsInertiaE = .op2 "matmul" (.op1 "T" (.sub (.var "pt") (.op1 "mean" (.var "pt")))) (.sub (.var "pt") (.op1 "mean" (.var "pt"))) ∧
+    recalcInertiaE = dotsInertiaE ∧ voxelInertiaE = dotsInertiaE := by
+  refine ⟨?_, ?_, ?_, by decide, by decide, by decide, by decide, by decide, by decide, by decide, by decide, by decide, by decide,
+    by decide⟩ <;>
+    simp [dotsAlphaE, recalcAlphaE, voxelAlphaE, eval, envOf, alpha]
+
+/-- **src_k_clipping.** `k = min(n_points, k)` evaluates to `kClip`; non-finite rows are dropped *before* the points are counted,
+the count before the clip, the clip before the KD-tree query; the tree is built on and queried with the same points (self-hits
+included) using the clipped `k`; the same (filtered) points are returned; the clipped `k` is what the `Dotprops` stores; the default `k`
+is positive; `recalculate_tangents` refuses `n < k`; skeletons with `k ≤ 0` / `None` go through `neuron2tangents` whose three results
+feed `points=`, `vect=`, `length=` in this order, with `k = None`. -/
+theorem src_k_clipping (n k : Nat) :
+    eval (envOf [("n", (n : Rat)), ("k", (k : Rat))]) clippedKE = ((kClip n k : Nat) : Rat) ∧ interpreted clippedKE = true ∧
+    0 < defaultK ∧ dotsOrderOK = true ∧ dotsQuery = ("x", "x", "k") ∧ dotsReturnsPoints = "x" ∧ dotsStoresClippedK = true ∧
+    recalcRaises = ⟨"n", "<", "k"⟩ ∧ recalcQuery = ("x.points", "k") ∧
+    skeletonBranchCmp = ⟨"k", "<=", "0"⟩ ∧ skeletonBranchAlsoNone = true ∧ skeletonBranchFeeds = [0, 1, 2] ∧
+    skeletonBranchK = "None" := by
+  refine ⟨?_, by decide, by decide, by decide, by decide, by decide, by decide, by decide, by decide, by decide, by decide,
+    by decide, by decide⟩
+  simp [clippedKE, eval, envOf, kClip]
+  split
+  · rename_i h; exact (min_eq_left (by exact_mod_cast h)).symm
+  · rename_i h; exact (min_eq_right (by have := not_le.mp h; exact_mod_cast le_of_lt this)).symm
+
+/-- **src_mesh_vertices.** Marching-cubes vertices are placed at `(index − pad + voxel offset)·spacing` in the single-pass path and at
+`(index + voxel offset)·spacing` in the chunked path (`index` in voxels), i.e. on the grid `index·units` of the `VoxelNeuron`, to which
+`voxels2mesh` adds `vox.offset`; the spacing is the neuron's `units_xyz.magnitude`; the iso level is ½.  The tube mesh repeats every
+node of a segment `tube_points` times in its `vertex_map` (segments addressed by row position, single-node segments skipped, no
+vertex merging); `mesh2skeleton` takes `vertex_map` from skeletor's `mesh_map` and re-maps shaved bristles to their parents. -/
+theorem src_mesh_vertices (m o s : Rat) :
+    eval (envOf [("verts", m * s), ("offset", o), ("spacing", s)]) singleVertsE = (m - (singlePad : Rat) + o) * s ∧
+    eval (envOf [("verts", m), ("offset", o), ("spacing", s)]) chunkedVertsE = (m + o) * s ∧
+    interpreted singleVertsE = true ∧ interpreted chunkedVertsE = true ∧
+    voxelMeshAddsOffset = true ∧ voxelMeshAutoSpacing = "vox.units_xyz.magnitude" ∧ singleMarchingSpacing = "spacing" ∧
+    marchingLevel = "0.5" ∧
+    tubeVertexMapRepeat = "tube_points" ∧ tubeVertexMapConds = [⟨"len(segment)", ">", "1"⟩] ∧ tubeMeshProcess = false ∧
+    tubeSegmentsByPosition = true ∧ skeletonVertexMapFrom = "skeleton.mesh_map" ∧ skeletonBristleRemap = true := by
+  refine ⟨?_, ?_, by decide, by decide, by decide, by decide, by decide, by decide, by decide, by decide, by decide, by decide,
+    by decide, by decide⟩
+  · first | (simp [singleVertsE, singlePad, eval, envOf]; done) | (simp [singleVertsE, singlePad, eval, envOf]; ring)
+  · first | (simp [chunkedVertsE, eval, envOf]; done) | (simp [chunkedVertsE, eval, envOf]; ring)
+
+end source
 
 end Navis.Props.C19
